@@ -85,8 +85,20 @@ bad = [(repr(x), repr(y)) for x in vals for y in vals if bool(strict_equals(x, y
 print(json.dumps(bad))
 '''
 
+def conj_fact():
+    src = open(os.path.join(REPO, 'nbdime/diffing/notebooks.py')).read()
+    tree = ast.parse(src)
+    fn = [n for n in ast.walk(tree) if isinstance(n, ast.FunctionDef) and n.name == 'diff_single_outputs']
+    if len(fn) != 1: raise GenError('diff_single_outputs not found exactly once')
+    calls = [ast.unparse(n.value) for n in ast.walk(fn[0]) if isinstance(n, ast.Assign)
+             and len(n.targets) == 1 and ast.unparse(n.targets[0]) == 'dd_conj']
+    if calls == ['diff(a_conj, b_conj)']: return False
+    if calls == ['diff(a_conj, b_conj, path=path, config=config)']: return True
+    raise GenError('diff_single_outputs: unrecognised computation of dd_conj: %r' % calls)
+
 def main():
     d = run_in_repo(CODE)
+    conj_cfg = conj_fact()
     dict_strict = value_compare_fact('nbdime/diffing/generic.py', 'diff_dicts', 'di.replace(key, bvalue)')
     mime_strict = value_compare_fact('nbdime/diffing/notebooks.py', 'add_mime_diff', 'diffbuilder.replace(key, bvalue)')
     if dict_strict or mime_strict or 'nbdime.utils.strict_equals' in (d['pred_default'] + d['generic_pred_default']):
@@ -121,7 +133,7 @@ def main():
     lines.append('  c_atomic := ' + coq_list('(%s, %s)' % (coq_str(k), coq_bool(v)) for k, v in sorted(d['atomic'].items())) + ';')
     lines.append('  c_split_mimes := ' + coq_list(coq_str(m) for m in d['split_mimes']) + ';')
     lines.append('  c_generic_pred := ' + coq_list(pred(x) for x in d['generic_pred_default']) + ';')
-    lines.append('  c_dict_strict := %s; c_mime_strict := %s |}.' % (coq_bool(dict_strict), coq_bool(mime_strict)))
+    lines.append('  c_dict_strict := %s; c_mime_strict := %s; c_conj_cfg := %s |}.' % (coq_bool(dict_strict), coq_bool(mime_strict), coq_bool(conj_cfg)))
     lines.append('')
     lines.append('Definition generic_config : config := {|')
     lines.append('  c_predicates := [];')
@@ -132,7 +144,7 @@ def main():
     lines.append('  c_atomic := [];')
     lines.append('  c_split_mimes := ' + coq_list(coq_str(m) for m in d['split_mimes']) + ';')
     lines.append('  c_generic_pred := ' + coq_list(pred(x) for x in d['generic_pred_default']) + ';')
-    lines.append('  c_dict_strict := %s; c_mime_strict := %s |}.' % (coq_bool(dict_strict), coq_bool(mime_strict)))
+    lines.append('  c_dict_strict := %s; c_mime_strict := %s; c_conj_cfg := %s |}.' % (coq_bool(dict_strict), coq_bool(mime_strict), coq_bool(conj_cfg)))
     lines.append('')
     if d['differ_keys']:
         raise GenError('notebook_differs has explicit keys after reset: %r' % d['differ_keys'])
